@@ -373,6 +373,30 @@ def _check_segment(events, mode, plugin, fixable, stats, where):
     return "line", None
 
 
+def _split_brackets(segments, plugin, impl):
+    """Sub-passes are delimited by reads of the file (that is how the pinned code works:
+    every sub-pass re-opens the file) AND by a START that directly follows a COMPLETE:
+    an implementation that reads the file once and rewinds the provider for the next
+    sub-pass delivers well-formed brackets back to back inside one read.  A second START
+    without a COMPLETE in between stays inside one bracket and is judged there."""
+    closes = "completed_file" in impl
+    for segment in segments:
+        events = segment["events"].get(plugin, [])
+        pieces, current = [], []
+        for event in events:
+            previous = current[-1][0] if current else None
+            if event[0] == "starting_new_file" and current and (previous == "completed_file" or (not closes and previous != "starting_new_file")):
+                pieces.append(current)
+                current = []
+            current.append(event)
+        pieces.append(current)
+        if len(pieces) == 1:
+            yield segment
+            continue
+        for piece in pieces:
+            yield {"file": segment["file"], "read": segment["read"], "events": {plugin: piece}}
+
+
 ORDER = {"starting_new_file": 0, "next_token": 1, "next_line": 2, "completed_file": 3}
 
 
@@ -456,10 +480,12 @@ def evaluate(sc):
                 stats["builtin_recorded"] += 1
             shapes_by_file = collections.defaultdict(list)
             problem = None
-            for segment in per_op.get(op_index, []):
+            for segment in _split_brackets(per_op.get(op_index, []), plugin, where["impl"].get(plugin, list(ORDER))):
                 events = segment["events"].get(plugin, [])
                 where["cur_file"] = segment["file"]
                 shape, issue = _check_segment(events, mode, plugin, fixable, stats, where)
+                if shape == "bare":
+                    stats["bare_start_segments"] += 1
                 in_faulted = faulted_file is not None and segment["file"] == faulted_file and op_index == faulted_op
                 if in_faulted:
                     stats["fault_cut_short"] += 1
